@@ -353,3 +353,29 @@ Example msg_words_example :
   split_message (bs "  hello   wide world") 10 = Ok [bs "hello wide"; bs "world"] /\
   split_message (bs "abcdefghijkl mn") 5 = Ok [bs "abcde"; bs "fghij"; bs "kl mn"].
 Proof. vm_compute. repeat split. Qed.
+
+(* ------------------------------------------------------------------ *)
+(* what is written for a source-less, tag-less PRIVMSG/NOTICE          *)
+(* (Commands.Message / Notice / Action)                                *)
+(* ------------------------------------------------------------------ *)
+
+Theorem send_fits_wire st e es :
+  se_tagov e = 0 -> se_source e = None -> se_params e <> [] -> is_msg_cmd (se_command e) = true ->
+  send st e = Ok es -> (cmd_target_len e <= max_event_length st)%Z ->
+  Forall (fun p =>
+    (Z.of_nat (length (event_bytes p)) <= max_event_length st)%Z \/
+    ((max_event_length st - cmd_target_len e < 4)%Z /\
+     (Z.of_nat (length (event_bytes p)) <= cmd_target_len e + 4)%Z)) es.
+Proof.
+  intros Ht Hs Hne Hm H Hc. unfold send in H.
+  pose proof (event_split_fits _ _ _ H Hne Hm Hc) as Hf.
+  assert (Hframe : Forall (fun p => se_tagov p = 0 /\ se_source p = None) es).
+  { destruct (event_split_shape _ _ _ H) as [->|(_ & _ & text & wrap & w & pieces & _ & _ & Hsf & _)].
+    - constructor; [split; assumption|constructor].
+    - eapply Forall_impl; [|exact Hsf]. intros p (_ & Hsrc & Htag & _). rewrite Hsrc, Htag. split; assumption. }
+  apply Forall_forall. intros p Hp.
+  pose proof (proj1 (Forall_forall _ _) Hf p Hp) as Hfp.
+  destruct (proj1 (Forall_forall _ _) Hframe p Hp) as [Hpt Hps].
+  pose proof (event_bytes_length p Hpt) as Hb. unfold len_opts in Hb. rewrite Hps in Hb.
+  unfold event_fits in Hfp. destruct Hfp as [Hfp|[Hw Hfp]]; [left; lia|right; lia].
+Qed.
